@@ -442,6 +442,7 @@ PendingReleased == /\ shutCh => (acc # "parked" /\ fl # "parked")
                    /\ Final => \A s \in Streams : rd[s] # "parked"
 \* "later calls fail": a Flush that starts after the session is shut down does not report success; nothing faults
 LaterFail == (lastSend = "ok" => ~sendLate) /\ lastSend # "fault"
+NoFault == lastSend # "fault"
 \* "every stream gets its close callback": never twice; exactly once when everything is over
 CallbackAtMostOnce == \A s \in CbStreams : cbL[s] + cbR[s] <= 1
 CallbackExactlyOnce == Final => \A s \in CbStreams : cbL[s] + cbR[s] = 1
